@@ -53,13 +53,7 @@ func gcsErr(err error) string {
 	case gcs.ErrNTooBig:
 		return "err:ntoobig"
 	}
-	if strings.Contains(err.Error(), "p value") {
-		return "err:punset"
-	}
-	if strings.Contains(err.Error(), "m value") {
-		return "err:munset"
-	}
-	return "err:other"
+	return "err:other" // unnamed errors (p/m not set, CompactSize errors): message texts are never compared
 }
 
 func bOr(b bool, err error) string {
